@@ -617,13 +617,72 @@ pub fn run(ctx: &Ctx, rep: &Report) -> Meta {
         rep.exhaustive("every single-bit flip, every extension by 1..=64 octets and every truncation of each honest encoding of the exhaustive-bit-flips shapes".into());
     }
     run_cases(ctx, rep, "codecs", ctx.tier.pick(160, 2000), 100, strat, |c| check(rep, "codecs", c));
+    // volume: relation (1) for many thousand API-produced objects (a decoder pre-check that is off by one refuses one
+    // honest signature in a few hundred or thousand, depending on an octet of the point or scalar)
+    {
+        let total = ctx.tier.pick(9600usize, 120000usize);
+        let ws: Vec<usize> = (0..16).collect();
+        par_items(ctx, rep, "volume", &ws, |&w| {
+            let suite = if w % 2 == 0 { SuiteId::Sha256 } else { SuiteId::Shake256 };
+            with_suite!(suite, CS => {
+                let ck = "volume";
+                let mut kp = KeyPair::<BBSplus<CS>>::random().unwrap();
+                for k in 0..total / 16 {
+                    if rep.aborted() {
+                        break;
+                    }
+                    if k % 16 == 0 {
+                        kp = KeyPair::<BBSplus<CS>>::random().unwrap();
+                    }
+                    let (sk, pk) = (kp.private_key(), kp.public_key());
+                    let msgs: Vec<Vec<u8>> = (0..1 + k % 3).map(|i| format!("v{}-{}-{}", w, k, i).into_bytes()).collect();
+                    let hdr = format!("h{}", k).into_bytes();
+                    let sig = Signature::<BBSplus<CS>>::sign(Some(&msgs), sk, pk, Some(&hdr)).unwrap();
+                    let cj = |what: &str, oct: &[u8]| json!({"volume": {"what": what, "octets": hex::encode(oct), "suite": suite.name()}});
+                    macro_rules! rtv {
+                        ($name:expr, $oct:expr, $cond:expr) => {
+                            rep.eval(ck, 1);
+                            if !$cond {
+                                return rep.fail(ck, &format!("roundtrip:{}", $name), format!("{} produced by the API does not survive its octet encoding: {}", $name, hx(&$oct)), cj($name, &$oct));
+                            }
+                        };
+                    }
+                    let sb = sig.to_bytes();
+                    rtv!("sig-octets", sb, Signature::<BBSplus<CS>>::from_bytes(&sb).ok().as_ref() == Some(&sig));
+                    if k % 16 == 0 {
+                        let pb = pk.to_bytes();
+                        rtv!("pk-octets", pb, BBSplusPublicKey::from_bytes(&pb).ok().as_ref() == Some(pk));
+                        let skb = sk.to_bytes();
+                        rtv!("sk-octets", skb, BBSplusSecretKey::from_bytes(&skb).ok().as_ref() == Some(sk));
+                        let (x, y) = pk.to_coordinates();
+                        rtv!("pk-coordinates", [x.to_vec(), y.to_vec()].concat(), BBSplusPublicKey::from_coordinates(&x, &y).ok().as_ref() == Some(pk));
+                    }
+                    if k % 4 == 0 {
+                        let proof = PoKSignature::<BBSplus<CS>>::proof_gen(pk, &sb, Some(&hdr), None, Some(&msgs), Some(&[0usize][..])).unwrap();
+                        let pb = proof.to_bytes();
+                        rtv!("proof-octets", pb, PoKSignature::<BBSplus<CS>>::from_bytes(&pb).ok().as_ref() == Some(&proof));
+                        let (com, bf) = Commitment::<BBSplus<CS>>::commit(Some(&msgs[..k % 2])).unwrap();
+                        let cb = com.to_bytes();
+                        rtv!("commitment-octets", cb, Commitment::<BBSplus<CS>>::from_bytes(&cb).ok().as_ref() == Some(&com));
+                        let bfb = bf.to_bytes();
+                        rtv!("blindfactor-octets", bfb, BlindFactor::from_bytes(&bfb).map(|b| b.to_bytes()).ok() == Some(bfb));
+                        let bsig = BlindSignature::<BBSplus<CS>>::blind_sign(sk, pk, Some(&cb), Some(&hdr), Some(&msgs)).unwrap();
+                        let bb = bsig.to_bytes();
+                        rtv!("blindsig-octets", bb, BlindSignature::<BBSplus<CS>>::from_bytes(&bb).ok().as_ref() == Some(&bsig));
+                    }
+                }
+                rep.nontrivial(ck, &json!({"worker": w}));
+                Ok(())
+            })
+        });
+    }
     crate::fuzzdrv::smoke(ctx, rep, "c09_canon", "byte-level-entry", ctx.tier.pick(20000, 200000));
     if ctx.tier == Tier::Thorough && !rep.aborted() {
         crate::fuzzdrv::run_campaign(ctx, rep, "c09_canon", "libfuzzer-decode-encode");
     }
     Meta {
         rule: "objects produced by the API (keys from generate / random, signatures, blind signatures, proofs with U = 0..4, commitments with M = 0..4, ZKPoK, blind factors, message scalars); \
-               relation (1) decode(encode(x)) = x for octets, public-key coordinates and serde_json; relation (2) on honest encodings, single-bit flips (all bits in exhaustive-bit-flips, 48 sampled otherwise), \
+               relation (1) decode(encode(x)) = x for octets, public-key coordinates and serde_json, also in volume (9600 quick / 120000 thorough signatures under fresh random keys, a quarter of them with proof, commitment, blind factor and blind signature); relation (2) on honest encodings, single-bit flips (all bits in exhaustive-bit-flips, 48 sampled otherwise), \
                whole-scalar extensions / truncations, other valid points, r-1, 0: decode(b) = Ok(x) implies encode(x) = b; relation (3) forbidden classes are rejected: trailing bytes 1..=64, every truncation, the uncompressed form of a point spliced in place of the compressed one, several points of cofactor order that cancel in a sum (Abar = Q, Bbar = -Q and the like), \
                scalar in {r, r+1, r+2^k for every k, 2^256-1, 2^256-1-2^k, the honest value + r}, points with x >= p, off-curve, on-curve-but-outside-the-subgroup (found by search and classified with from_compressed_unchecked + is_torsion_free), bad flag combinations, \
                identity as public key (compressed and coordinates), as signature point, as proof point, e = 0; primed-sequences (one thread, nothing else running): the honest key decoded by from_bytes / from_coordinates / not at all, then coordinates with single bits of y or x flipped, halves of y replaced by random octets, p or ff..ff, the negated point, x and y exchanged - accepted coordinates must re-encode to themselves - and every (160 sampled for long encodings) single-bit flip decoded right after its honest encoding; non-trivial = (codec, object) with its derived strings; evaluations = decode/encode judgements"
@@ -636,6 +695,24 @@ pub fn run(ctx: &Ctx, rep: &Report) -> Meta {
 }
 
 pub fn replay(_ctx: &Ctx, rep: &Report, ck: &str, case: &Value) -> CheckResult {
+    if ck == "volume" {
+        // the recorded octets came out of the API: they must decode and re-encode to themselves
+        let v = &case["volume"];
+        let (what, oct) = (v["what"].as_str().unwrap_or(""), hex::decode(v["octets"].as_str().unwrap_or("")).unwrap_or_default());
+        let suite = if v["suite"] == "shake256" || v["suite"] == "Shake256" { SuiteId::Shake256 } else { SuiteId::Sha256 };
+        let codec = match what {
+            "sig-octets" => Codec::Sig,
+            "pk-octets" => Codec::Pk,
+            "sk-octets" => Codec::Sk,
+            "proof-octets" => Codec::Proof,
+            "commitment-octets" => Codec::Commitment,
+            "blindfactor-octets" => Codec::BlindFactor,
+            "blindsig-octets" => Codec::BlindSig,
+            _ => return Err(Fail { check: ck.into(), site: "replay-parse".into(), msg: format!("volume case of kind {:?}", what), case: case.clone() }),
+        };
+        let re = with_suite!(suite, CS => decode_encode::<CS>(codec, &oct));
+        return if re.as_deref() == Some(&oct[..]) { Ok(()) } else { Err(Fail { check: ck.into(), site: format!("roundtrip:{}", what), msg: "the recorded API-produced octets are refused or re-encode differently".into(), case: case.clone() }) };
+    }
     if ck.starts_with("libfuzzer") || ck == "byte-level-entry" {
         return crate::fuzzdrv::replay_input(rep, ck, case);
     }
